@@ -37,6 +37,7 @@ WITNESSES = [
     ("premature_idle(F14)", IC.WITNESS_PREMATURE_IDLE, "C36/released_while_not_idle:premature_idle"),
     ("send_window", IC.WITNESS_SEND_WINDOW, "C36/released_while_not_idle:send_window"),
     ("query_window", IC.WITNESS_QUERY_WINDOW, "C36/released_early:query_window"),
+    ("wait_requirements_lost", IC.WITNESS_REQUIREMENTS_LOST, "C36/wait_requirements_lost_on_reload"),
 ]
 
 
@@ -75,6 +76,6 @@ def run(env: Env) -> Outcome:
                 "non-trivial = at least one release and one reload; distinct by (case, schedule)")
     LP.run_malformed(out)
     LP.run_inprocess(env, out, "C36", env.budget(30, 600), WITNESSES)
-    LP.run_row_corr(env, out, env.budget(200, 4000))
+    LP.run_row_corr(env, out, env.budget(200, 4000), "C36")
     _dbos_never_released(out)
     return out
